@@ -130,12 +130,5 @@ def _abbr(s: str) -> str:
 
 def check_table(rep: Report, ctx: Ctx, rule: str,
                 funcs: list[str]) -> None:
-    for fn in funcs:
-        fi = ctx.func(fn)
-        effs = effects(ctx, fi)
-        for what, kind, name, recv, args, must, may, why in TABLE[fn]:
-            recv = _abbr(recv)
-            args = tuple(_abbr(a) for a in args)
-            expect(rep, rule, fi, effs, f"{fn}: {what}", kind=kind,
-                   name=name, recv=recv, args=tuple(args), must=must,
-                   may=may, why=why)
+    from .effspec import check_table as _ct
+    _ct(rep, ctx, rule, TABLE, funcs, _abbr)
